@@ -285,7 +285,7 @@ def r_stmts(ss, vt, ind):
                 out.append("%sSpeichere (%s) in %s." % (t, call, r_lv(s[1])))
         elif k == "if":
             out.append("%sWenn %s ungleich 0 ist, dann:" % (t, r_ex(s[1])))
-            out += r_stmts(s[2], dict(vt), ind + 1) or ["%s\tSchreibe ''." % t]
+            out += r_stmts(s[2], dict(vt), ind + 1) or ['%s\tSchreibe "".' % t]
             if s[3]:
                 out.append("%sSonst:" % t)
                 out += r_stmts(s[3], dict(vt), ind + 1)
@@ -322,7 +322,7 @@ def render(prog):
         if f["ret"] is not None:
             body.append("\tGib %s zurück." % r_ex(f["ret"][1]))
         if not body:
-            body = ["\tSchreibe ''."]
+            body = ['\tSchreibe "".']
         out += "Die Funktion %s %s, %s, macht:\n%s\nUnd kann so benutzt werden:\n\t\"%s %s\"\n\n" % (
             f["name"], head, ret, "\n".join(body), f["name"], " ".join("<%s>" % n for n in names))
     out += "\n".join(r_stmts(prog["main"], vt, 0)) + "\n"
